@@ -221,7 +221,11 @@ int main(int argc, char **argv)
 			char lk[8];
 			if (r.violated || (g_leak_mode && leak_found(lk, sizeof(lk)))) { nviol++; dump_plan(&p); }
 			if (recheck && idx % recheck == 0) {
+				/* the re-execution belongs to the same run: a sanitizer that kills the process here is reporting on it */
+				fprintf(g_out, "BEGIN idx=%" PRIu64 " seed=%" PRIu64 " recheck=1\n", idx, rs);
+				fflush(g_out);
 				exec_plan(sc, &p, &r2);
+				fprintf(g_out, "RECHECKED idx=%" PRIu64 "\n", idx);
 				/* a run in which the library misbehaved may have consumed uninitialised
 				 * memory; its class must be stable, its exact bytes need not be */
 				if ((!r.violated && r2.fp != r.fp) || r2.violated != r.violated || strcmp(r2.vclass, r.vclass)) {
